@@ -210,13 +210,15 @@ fn dies_again(prop: &str, tier: &str, seed: u64, slot: usize, env: &[(String, St
     let pid = wp.child.id();
     let done = Arc::new(AtomicBool::new(false));
     let killed = Arc::new(AtomicBool::new(false));
-    let wd = { let (done, killed) = (done.clone(), killed.clone()); std::thread::spawn(move || { let t0 = Instant::now(); while !done.load(Ordering::Relaxed) { std::thread::sleep(Duration::from_millis(200)); if t0.elapsed() > wall { killed.store(true, Ordering::Relaxed); unsafe { libc::kill(pid as i32, libc::SIGKILL); } break; } } }) };
+    let progress = Arc::new(Mutex::new(Instant::now()));
+    let wd = { let (done, killed, progress) = (done.clone(), killed.clone(), progress.clone()); std::thread::spawn(move || { while !done.load(Ordering::Relaxed) { std::thread::sleep(Duration::from_millis(200)); if progress.lock().unwrap().elapsed() > wall { killed.store(true, Ordering::Relaxed); unsafe { libc::kill(pid as i32, libc::SIGKILL); } break; } } }) };
     let mut line = String::new();
     let mut completed = false;
     let mut overrun = false;
     loop {
         line.clear();
         if wp.stdout.read_line(&mut line).unwrap_or(0) == 0 { break; }
+        *progress.lock().unwrap() = Instant::now();
         if line.starts_with("E ") { if line.contains("|cpu-budget|") || line.contains("|alloc-budget|") { overrun = true; } }
         if line.starts_with("D ") { completed = true; break; }
     }
